@@ -79,10 +79,26 @@ func From5(sym []byte) ([]byte, bool) {
 	return out, true
 }
 
-func checksum(hrp string, sym []byte) []byte {
+// Bech32mConst is the checksum constant of Bech32m (BIP 350); age uses Bech32 (constant 1) only.
+const Bech32mConst = 0x2bc830a3
+
+func checksum(hrp string, sym []byte) []byte { return checksumConst(hrp, sym, 1) }
+
+// Bech32EncodeConst is Bech32Encode with another checksum constant (e.g. Bech32mConst): a string age must reject.
+func Bech32EncodeConst(hrp string, data []byte, k uint32) string {
+	sym := To5(data)
+	sym = append(sym, checksumConst(hrp, sym, k)...)
+	out := EncodeSymbols(strings.ToLower(hrp), sym)
+	if hrp != strings.ToLower(hrp) {
+		return strings.ToUpper(out)
+	}
+	return out
+}
+
+func checksumConst(hrp string, sym []byte, k uint32) []byte {
 	v := append(HRPExpand(hrp), sym...)
 	v = append(v, 0, 0, 0, 0, 0, 0)
-	m := Polymod(v) ^ 1
+	m := Polymod(v) ^ k
 	out := make([]byte, 6)
 	for i := range out {
 		out[i] = byte(m>>uint(5*(5-i))) & 31
